@@ -128,29 +128,7 @@ def run(ctx: Ctx):
         nm = ("attr", ("bv", cp[1]), "name")
         okp = len(cp[4]) == 1 and cp[4][0] in live_of(nm)
         ctx.check(okp, "R12.b", passign.key("filter"), "a parameter is skipped only if its name has no dependents", f"CodeGenerator._parameter_assignments keeps a parameter iff `{_av.show(cp[4][0])[:140] if cp[4] else 'always'}`, not iff <its name has dependents (when remove_unused)>", passign.where())
-    # purity: no memoisation keyed on less than the arguments
-    for mname, f in cgc.methods.items():
-        if mname == "__init__":
-            continue
-        decs = [d for d in f.decorators() if "cache" in d]
-        ctx.check(not decs, "R12.b", f.key("no-cache-decorator"), "not memoised", f"CodeGenerator.{mname} is memoised ({decs}); results computed for one remove_unused setting could be reused for another", f.where(), )
-        writes = []
-        for n in walk_no_nested(f.node):
-            tg = []
-            if isinstance(n, ast.Assign):
-                tg = n.targets
-            elif isinstance(n, (ast.AugAssign, ast.AnnAssign)):
-                tg = [n.target]
-            for t in tg:
-                root = t
-                while isinstance(root, (ast.Subscript, ast.Attribute)):
-                    if isinstance(root, ast.Attribute) and isinstance(root.value, ast.Name) and root.value.id == "self":
-                        writes.append(norm(t))
-                        break
-                    root = root.value
-            if isinstance(n, ast.Call) and isinstance(n.func, ast.Attribute) and n.func.attr in ("setdefault", "update", "append", "add", "__setitem__") and (dotted(n.func.value) or "").startswith("self."):
-                writes.append(norm(n)[:60])
-        ctx.check(not writes, "R12.b", f.key("no-state-writes"), "generator method keeps no state between calls", f"CodeGenerator.{mname} writes generator state ({writes}); the text generated by one method can then depend on which methods ran before", f.where())
+    check_generator_purity(ctx, "R12.b")
     # every scheme forwards remove_unused into the same accessor it prints from
     for m in common.scheme_models(ctx).values():
         ok = norm(m.seq) == "ode.sorted_assignments(remove_unused=remove_unused)"
@@ -167,3 +145,35 @@ def run(ctx: Ctx):
     # the parameter layout: every producer of parameter slots numbers the same sequence (a producer that filters by use
     # *before* numbering renumbers the used parameters)
     slot_families(ctx, "R12.c", only_family="PARAM", check_guard=False, check_ru=False)
+
+
+def check_generator_purity(ctx: Ctx, rule: str, only: set | None = None, classes=(("codegen/base.py", "CodeGenerator"),)):
+    """generator methods keep no state between calls (no cache decorator, no writes to self): what a method returns
+    depends on its arguments and the model only - not on an earlier call with other options"""
+    for short, cname in classes:
+        cgc = ctx.sm.cls(short, cname, required=False)
+        if cgc is None:
+            continue
+        # purity: no memoisation keyed on less than the arguments
+        for mname, f in cgc.methods.items():
+            if mname == "__init__" or (only is not None and mname not in only):
+                continue
+            decs = [d for d in f.decorators() if "cache" in d]
+            ctx.check(not decs, rule, f.key("no-cache-decorator"), "not memoised", f"CodeGenerator.{mname} is memoised ({decs}); results computed for one remove_unused setting could be reused for another", f.where(), )
+            writes = []
+            for n in walk_no_nested(f.node):
+                tg = []
+                if isinstance(n, ast.Assign):
+                    tg = n.targets
+                elif isinstance(n, (ast.AugAssign, ast.AnnAssign)):
+                    tg = [n.target]
+                for t in tg:
+                    root = t
+                    while isinstance(root, (ast.Subscript, ast.Attribute)):
+                        if isinstance(root, ast.Attribute) and isinstance(root.value, ast.Name) and root.value.id == "self":
+                            writes.append(norm(t))
+                            break
+                        root = root.value
+                if isinstance(n, ast.Call) and isinstance(n.func, ast.Attribute) and n.func.attr in ("setdefault", "update", "append", "add", "__setitem__") and (dotted(n.func.value) or "").startswith("self."):
+                    writes.append(norm(n)[:60])
+            ctx.check(not writes, rule, f.key("no-state-writes"), "generator method keeps no state between calls", f"CodeGenerator.{mname} writes generator state ({writes}); the text generated by one method can then depend on which methods ran before", f.where())
